@@ -427,11 +427,22 @@ async fn run_op(c: &mut ACase, idx: usize, toks: &[&str]) -> String {
     }
 }
 
-pub fn main(file: &str, pending: bool) {
+/// `tokio` - a current-thread tokio runtime (the default); otherwise `futures::executor::block_on`, i.e. NO tokio runtime is
+/// entered: code that reaches for one (spawn_blocking, Handle::current) must degrade to an error, not panic.
+pub fn main(file: &str, pending: bool, tokio_rt: bool) {
     std::panic::set_hook(Box::new(|_| {}));
-    let rt = tokio::runtime::Builder::new_current_thread().build().unwrap();
     let text = std::fs::read_to_string(file).unwrap();
-    rt.block_on(async move {
+    let fut = run_file(text, pending);
+    if tokio_rt {
+        let rt = tokio::runtime::Builder::new_current_thread().build().unwrap();
+        rt.block_on(fut);
+    } else {
+        futures::executor::block_on(fut);
+    }
+}
+
+async fn run_file(text: String, pending: bool) {
+    {
         let mut cur = ACase::new("", pending);
         for line in text.lines() {
             let line = line.trim();
@@ -480,5 +491,5 @@ pub fn main(file: &str, pending: bool) {
             }
         }
         cur.cleanup();
-    });
+    }
 }
